@@ -51,11 +51,13 @@ def gen_values(rng, n):
         v = [rng.gauss(0, 1) for _ in range(n)]
         v[rng.randrange(n)] = rng.choice([1e3, -1e3])
     if rng.random() < 0.3 and n > 1:
-        keep = rng.randrange(n)  # at least one finite replicate per component (all-NaN columns are
-        for _ in range(rng.randint(1, max(1, n // 3))):  # outside the property: "NaNs ignored")
+        keep = rng.randrange(n)
+        for _ in range(rng.randint(1, max(1, n // 3))):
             k = rng.randrange(n)
             if k != keep:
                 v[k] = math.nan
+    if rng.random() < 0.04:
+        v = [math.nan] * n  # no finite replicate at all: limits must be NaN (all three methods)
     return v
 
 
